@@ -147,6 +147,13 @@ func (s *c01State) open() {
 		}
 		s.cs = NewGenerationalCS(s.oldGen, s.newGen, ghost)
 	}
+	// Every real caller reads the root right after opening a database, which is what loads a
+	// lazily opened journal store; GenerationalNBS.Put/Commit go to the new generation without
+	// ensureLoad, so a Put that overflows the (here tiny) memtable before any read would hit the
+	// not-yet-loaded table set.
+	if _, err := s.cs.Root(ctx); err != nil {
+		s.fail("Root after open: %v", err)
+	}
 }
 
 func (s *c01State) close() {
@@ -721,6 +728,7 @@ func TestVerif_C01(t *testing.T) {
 		"chunks written but not committed before close+reopen may or may not survive; if present their bytes must match and all read APIs must agree",
 		"archive-backed GetMany delivers forged-address chunks under their content hash (chunks.NewChunk in archiveChunkSource.getMany); such deliveries are matched by content",
 		"the generational store is built with a ghost store as dbfactory does; GC is not part of C01 cases",
+		"Root() is read right after every open, as every real caller does (it triggers the lazy load of a journal store; GenerationalNBS.Put does not)",
 		"a chunk never exceeds the memtable size (the journal store's memtable is shrunk through the unexported memtableSz field to reach the flush-on-full path cheaply)")
 	defer rec.Write(t)
 	vh.Check(t, "model", 220, 800, func(rt *rapid.T) { c01Case(rt, rec) })
